@@ -37,6 +37,11 @@ class Lib:
         op = name[len('operator'):]
         a0 = args[0]
         t0 = P.ty(a0); c0 = self.tr.category(t0)
+        if op == '()' and t0.strip_ref().kind == 'named' and t0.strip_ref().name in ('std::hash', 'hash') and len(args) == 2 and t0.strip_ref().args:
+            # std::hash<T>()(x): libstdc++'s hash of a float / a string, modelled in shims (base.h / str.h)
+            ht = t0.strip_ref().args[0]; hc = self.tr.category(ht)
+            if hc == 'scalar' and ht.name == 'float': return 'shim_hash_float(%s)' % P.ex(args[1])
+            if hc == 'str': return 'shim_hash_sv(%s)' % self.as_sv(P, args[1])
         if op == '<<' and c0 == 'fstream':
             # `stringstream << x` through the basic_ostream overloads: look through the derived-to-base cast
             x = a0
